@@ -1374,8 +1374,8 @@ def run_loop_break(repo, res, modules):
     return n
 
 
-_PACK = [('T-AXIS', 'run_axis'), ('DEADSTORE', 'run_deadstore'), ('CLASS-MUTABLE', 'run_class_mutable'),
-         ('MUTABLE-DEFAULT', 'run_mutable_default'), ('GUARD-FAMILY', 'run_guard_family'), ('MEMO-STALE', 'run_memo_stale'), ('A2-PROP', 'run_pure_getters'), ('LOOP-BREAK', 'run_loop_break'), ('LOOP-COUNTER', 'run_loop_counter'), ('NONFINITE', 'run_nonfinite'),
+_PACK = [('T-AXIS', 'run_axis'), ('QUADFORM', 'run_quadform'), ('DEADSTORE', 'run_deadstore'), ('CLASS-MUTABLE', 'run_class_mutable'),
+         ('MUTABLE-DEFAULT', 'run_mutable_default'), ('GUARD-FAMILY', 'run_guard_family'), ('MEMO-STALE', 'run_memo_stale'), ('A2-PROP', 'run_pure_getters'), ('CACHE-PURE', 'run_cache_pure_pack'), ('LOOP-BREAK', 'run_loop_break'), ('NAN-TWIN', 'run_nan_twin'), ('APPEND-TWIN', 'run_append_twin'), ('PARAM-UNUSED', 'run_param_unused'), ('CASTDT', 'run_castdt_pack'), ('LOOP-COUNTER', 'run_loop_counter'), ('NONFINITE', 'run_nonfinite'),
          ('LABEL-EQ', 'run_label_eq'), ('ROUND', 'run_round'), ('LOOP-TWIN', 'run_loop_twin'),
          ('GENERIC-DECOR', 'run_no_cached_property'), ('NO-OVERWRITE', 'run_no_overwrite_input'), ('SLICE-KIND', 'run_slice_kind'),
          ('LOOPVAR', 'run_loopvar_used'), ('UNRAVEL', 'run_unravel'), ('FWD', 'run_forward'), ('UNIT-LAST', 'run_unit_last'),
@@ -1588,6 +1588,12 @@ A2_PROP_EXEMPT = {
 }
 
 
+def run_cache_pure_pack(repo, res, modules):
+    """CACHE-PURE over a module set with the standard (named, reasoned) exemptions."""
+    from .C08 import CACHE_PURE_OK
+    return run_cache_pure(repo, res, modules=modules, exempt=CACHE_PURE_OK)
+
+
 def run_pure_getters(repo, res, modules):
     """A property (plain or lazy) only reads: it never modifies an array stored on its object in place (E-ALIAS field-mutation
     summary of the getter, callees included).  A getter that does so changes what every other reader of the object sees,
@@ -1680,3 +1686,146 @@ def pack_selftest():
         raise AnalysisError(f'generic pack self-test: {bad} no longer report their positive example ({got})')
     _SELFTEST_OK = got
     return got
+
+
+_QF_XX = re.compile(r'(?<![a-z])[a-z]{0,4}_?xx$|x2$')
+_QF_YY = re.compile(r'(?<![a-z])[a-z]{0,4}_?yy$|y2$')
+
+
+def run_quadform(repo, res, modules):
+    """Terms of a quadratic form: a coefficient named for one axis pair (`cxx`, `cyy`, `sigx2`) multiplies displacements of that
+    axis only (`cxx * dx**2`, `cyy * dy**2`); `cyy * dx**2` mixes the axes."""
+    n = 0
+
+    def factors(e):
+        if isinstance(e, ast.BinOp) and isinstance(e.op, ast.Mult):
+            return factors(e.left) + factors(e.right)
+        if isinstance(e, ast.BinOp) and isinstance(e.op, ast.Pow):
+            return factors(e.left)
+        return [e]
+    for f in repo.functions.values():
+        if f.module.name not in modules:
+            continue
+        seen = set()
+        for node in ast.walk(f.node):
+            if not (isinstance(node, ast.BinOp) and isinstance(node.op, ast.Mult)) or id(node) in seen:
+                continue
+            for sub in ast.walk(node):
+                if isinstance(sub, ast.BinOp) and isinstance(sub.op, ast.Mult):
+                    seen.add(id(sub))
+            fs = factors(node)
+            names = [x.id if isinstance(x, ast.Name) else x.attr if isinstance(x, ast.Attribute) else None for x in fs]
+            coef = [(nm, 'X') for nm in names if nm and _QF_XX.search(nm)] + [(nm, 'Y') for nm in names if nm and _QF_YY.search(nm)]
+            if len(coef) != 1:
+                continue
+            cname, want = coef[0]
+            others = [AX.tag(x) for x, nm in zip(fs, names) if nm != cname]
+            tagged = [t for t in others if isinstance(t, str)]
+            if not tagged:
+                continue
+            n += 1
+            ok = all(t == ('x' if want == 'X' else 'y') or t == want for t in tagged)
+            res.oblige('T-AXIS', f'{f.qualname}: `{cname}` multiplies displacements of its own axis', ok, nontrivial=True,
+                       sample={'function': f.fullname, 'term': unparse(node, 60)})
+            if not ok:
+                st = enclosing_stmt(node) or node
+                res.add(Finding('T-AXIS', f.fullname, 'quadratic term ' + unparse(node, 60), f'{f.module.relpath}:{getattr(node, "lineno", 0)}',
+                                f'{f.qualname}: in `{unparse(node, 70)}` the {want}-axis coefficient `{cname}` multiplies a displacement '
+                                f'of the other axis: the quadratic form mixes x and y', {}))
+    return n
+
+
+_NAN_TWINS = ('argmax', 'argmin', 'max', 'min', 'sum', 'mean', 'median', 'std', 'var')
+
+
+def run_nan_twin(repo, res, modules):
+    """A function that reduces with the NaN-aware form of a numpy reduction (`np.nanargmax`) does not use the NaN-blind form of the
+    same reduction elsewhere (`np.argmax`): one of its branches would then pick or propagate the masked (NaN) pixels the other
+    ignores.  (No function of the pinned package mixes the two.)"""
+    n = 0
+    for f in repo.functions.values():
+        if f.module.name not in modules:
+            continue
+        calls = {}
+        for c in ast.walk(f.node):
+            if isinstance(c, ast.Call) and isinstance(c.func, ast.Attribute) and isinstance(c.func.value, ast.Name) \
+                    and c.func.value.id in ('np', 'numpy'):
+                calls.setdefault(c.func.attr, c)
+        used = [x for x in _NAN_TWINS if 'nan' + x in calls]
+        if not used:
+            continue
+        n += 1
+        both = [x for x in used if x in calls]
+        res.oblige('NAN-TWIN', f'{f.qualname}: NaN-aware reductions are not mixed with their NaN-blind forms', not both, nontrivial=True,
+                   sample={'function': f.fullname, 'reductions': ['nan' + x for x in used]})
+        for x in both:
+            c = calls[x]
+            res.add(Finding('NAN-TWIN', f.fullname, f'np.{x} next to np.nan{x}', f'{f.module.relpath}:{c.lineno}',
+                            f'{f.qualname} uses np.nan{x} on one path and np.{x} (`{unparse(c, 60)}`) on another: masked pixels are '
+                            f'stored as NaN here, so the NaN-blind form selects or propagates them', {}))
+    res.inst('NAN-TWIN', 0)
+    return n
+
+
+def run_param_unused(repo, res, modules):
+    """A parameter that the reference definition reads is still read: replacing a parameter by a stored attribute of the same
+    meaning (`geometry` -> `self._geometry`) silently ignores what the caller passed.  Parameters that were already unread in
+    the reference (API compatibility) are listed in the canon table and skipped."""
+    from .. import canon as _canon
+    ref = _canon.table().get('__unread_params__')
+    if ref is None:
+        return 0
+    n = 0
+    for f in repo.functions.values():
+        if f.module.name not in modules or f.fullname not in (_canon.table().get('__functions__') or ()):
+            continue
+        reads = {x.id for x in ast.walk(f.node) if isinstance(x, ast.Name) and isinstance(x.ctx, ast.Load)}
+        # a body that is only `raise NotImplementedError` / docstring / pass reads nothing by design
+        body = [s_ for s_ in f.node.body if not (isinstance(s_, ast.Expr) and isinstance(s_.value, ast.Constant))]
+        if not body or all(isinstance(s_, (ast.Raise, ast.Pass)) for s_ in body):
+            continue
+        known = set(ref.get(f.fullname, ()))
+        unread = [p for p in f.params if p not in ('self', 'cls') and p not in reads and p not in known]
+        n += 1
+        res.oblige('PARAM-UNUSED', f'{f.qualname} reads every parameter its reference definition reads', not unread, nontrivial=bool(f.params),
+                   sample=None)
+        for p in unread:
+            res.add(Finding('PARAM-UNUSED', f.fullname, f'parameter {p}', f.loc,
+                            f'{f.qualname} no longer reads its parameter `{p}` (the pinned definition does): what the caller passes is '
+                            f'ignored and something else (a stored attribute, a default) is used in its place', {}))
+    res.inst('PARAM-UNUSED', 0)
+    return n
+
+
+def run_castdt_pack(repo, res, modules):
+    """CASTDT outside the label-array module (segmentation labels are integer by contract and keep the array's dtype)."""
+    return run_cast_to_data_dtype(repo, res, set(modules) - {'photutils.segmentation.core'})
+
+
+def run_append_twin(repo, res, modules):
+    """Within one function, every `L.append(<name>)` on the same list appends the same name: sibling branches that record an
+    element into one result list record the same thing (`indices.append(index)` / `indices.append(ierr)` is a slip)."""
+    n = 0
+    for f in repo.functions.values():
+        if f.module.name not in modules:
+            continue
+        apps = {}
+        for c in ast.walk(f.node):
+            if isinstance(c, ast.Call) and isinstance(c.func, ast.Attribute) and c.func.attr == 'append' \
+                    and isinstance(c.func.value, ast.Name) and len(c.args) == 1 and isinstance(c.args[0], ast.Name):
+                apps.setdefault(c.func.value.id, []).append(c)
+        for lst, calls in apps.items():
+            if len(calls) < 2:
+                continue
+            n += 1
+            names = sorted({c.args[0].id for c in calls})
+            ok = len(names) == 1
+            res.oblige('APPEND-TWIN', f'{f.qualname}: every append to `{lst}` records the same variable', ok, nontrivial=True,
+                       sample={'function': f.fullname, 'list': lst, 'appended': names})
+            if not ok:
+                c = calls[-1]
+                res.add(Finding('APPEND-TWIN', f.fullname, f'{lst}.append of {names}', f'{f.module.relpath}:{c.lineno}',
+                                f'{f.qualname} appends different variables {names} to the same list `{lst}` on sibling paths: one of '
+                                f'the branches records the wrong quantity', {}))
+    res.inst('APPEND-TWIN', 0)
+    return n
